@@ -28,6 +28,12 @@ for d in sorted(glob.glob(os.path.join(ROOT,'seeded','*'))):
     res[key]=det
 sh('git checkout -q -- . && git clean -fdq',cwd=W)
 sh('git -C /repo worktree remove --force %s'%W)
+# the source-derived Lean files were regenerated from the changed tree: regenerate them from /repo
+sys.path.insert(0, os.path.join(ROOT,'lib'))
+import registry
+env=dict(os.environ); env.pop('VERIF_REPO',None); env['GOFLAGS']='-mod=mod'; env['GOPROXY']='off'
+for g in registry.all_generators():
+    sh(g['cmd'],cwd=ROOT,env=env)
 import datetime
 out=os.environ.get('RESULTS')
 if out:
